@@ -102,6 +102,19 @@ Theorem C01_compute_pixels_distinct :
 Proof. exact grid_pixels_distinct. Qed.
 Print Assumptions C01_compute_pixels_distinct.
 
+(* with the built-in parameters only, a connected component is kept iff it spans at least
+   min_delta and has at least min_npix pixels: an order-independent characterisation of the
+   "isolated leaf failing the criteria" exception *)
+Theorem C01_builtin_characterisation :
+  forall adj d n den, 0 < den ->
+  forall order,
+    NoDup (map fst order) -> sorted_desc order ->
+    (forall a b, In a (map fst order) -> In b (map fst order) -> In b (adj a) -> In a (adj b)) ->
+    forall r, In r (run adj (indep_of [MinDelta d; MinNpix n den]) order) ->
+      (~ dropped (indep_of [MinDelta d; MinNpix n den]) r <-> region_passes d n den r).
+Proof. exact builtin_kept_iff_region_passes. Qed.
+Print Assumptions C01_builtin_characterisation.
+
 (* non-vacuity: a concrete input meeting the hypotheses, with a dropped leaf *)
 Example C01_example :
   let vals := [Some 5; Some 1; None; Some 3; Some 4] in
